@@ -67,7 +67,7 @@ fn check(ctx: &mut Ctx, h: &History) -> Result<(), String> {
 }
 
 pub fn run(ctx: &mut Ctx) {
-    ctx.rule = "histories of 1-8 registrations into one store (reference store, MemoryStore, single-slot Option) over 9 (origin, RP ID) sites accepted under C01, with generated challenges (0..128 bytes), user ids/names, algorithm lists, client-data modes, UV requirements, resident-key selections, id lengths 0..255, counter on/off, AAGUIDs, attestation preferences, requested extensions (credProps, PRF with one or two inputs on authenticators without / with hmac-secret / with hmac-secret-mc) and exclude lists that exclude nothing (absent, empty, ids nobody holds, ids held for another RP). Non-trivial = a registration that succeeded or failed because of its algorithm list; distinct by (store kind, registration request).".into();
+    ctx.rule = "histories of 1-8 registrations into one store (reference store, MemoryStore, single-slot Option) over 9 (origin, RP ID) sites accepted under C01, with generated challenges (0..128 bytes), user ids/names, algorithm lists, client-data modes, UV requirements, resident-key selections, id lengths 0..255, counter on/off, AAGUIDs, attestation preferences, requested extensions (credProps, PRF with one or two inputs on authenticators without / with hmac-secret / with hmac-secret-mc) and exclude lists that exclude nothing (absent, empty, ids nobody holds, ids held for another RP). Since rounds 7/8: the reference store also inside the four lock wrappers, two Android sites with fingerprints whose base64 / base64url forms differ, the transports builder called last, one registration in eight while the store refuses the save. Non-trivial = a registration that succeeded or failed because of its algorithm list; distinct by (store kind, registration request).".into();
     ctx.assumptions = vec![
         "origins are pure-origin URLs; parameter types are always public-key".into(),
         "the authenticator supports ES256 only, so 'first supported entry' is observable as: success with -7 iff the list is empty or contains -7".into(),
